@@ -49,7 +49,9 @@ specification for some inputs; eight areas (disclosure text and digest; the key-
 placeholders / `_sd_alg`; cnf; compact framing; salts and decoys; iss / exp / iat). This round tests whether the
 oracles are independent of the library: the harness computes digests, sd_hash, framing and (since this round) JWS
 signatures itself — 10 of 24 would have been missed by the pre-round checks of the property aimed at (most of those
-were reported by another property's check). Every change was confirmed here
+were reported by another property's check). Round 10: seven agents (an eighth failed twice on an output limit): free choice with triggers of a kind not yet in the list; process-global
+and thread-related state; valid but unusual use of the API; refactorings that move or reorder code; use of the
+dependencies' APIs; optional behaviour that is on by default or sniffed from the input. Every change was confirmed here
 (`tools/confirm_seed.sh` in a scratch worktree: demo passes without the change, 146/146 suite tests
 pass with it, demo fails with it) and run against all 16 quick checks in scratch copies
 (`tools/seedmatrix.sh`; `/repo` itself is never modified). Kept under `/verif/seeded/<name>/`
